@@ -66,13 +66,16 @@ func FindNaluTypes(sample []byte) []NaluType {
 		return nil
 	}
 	naluList := make([]NaluType, 0, 2)
-	var pos uint32 = 0
-	for pos < uint32(length-4) {
-		naluLength := binary.BigEndian.Uint32(sample[pos : pos+4])
+	pos := 0
+	for pos < length-4 {
+		naluLength := uint64(binary.BigEndian.Uint32(sample[pos : pos+4]))
 		pos += 4
 		naluType := GetNaluType(sample[pos])
 		naluList = append(naluList, naluType)
-		pos += naluLength
+		if naluLength > uint64(length-pos) {
+			break // NALU length field points beyond the sample
+		}
+		pos += int(naluLength)
 	}
 	return naluList
 }
@@ -84,16 +87,19 @@ func FindNaluTypesUpToFirstVideoNALU(sample []byte) []NaluType {
 		return nil
 	}
 	naluList := make([]NaluType, 0)
-	var pos uint32 = 0
-	for pos < uint32(length-4) {
-		naluLength := binary.BigEndian.Uint32(sample[pos : pos+4])
+	pos := 0
+	for pos < length-4 {
+		naluLength := uint64(binary.BigEndian.Uint32(sample[pos : pos+4]))
 		pos += 4
 		naluType := GetNaluType(sample[pos])
 		naluList = append(naluList, naluType)
-		pos += naluLength
 		if IsVideoNaluType(naluType) {
 			break // first video nalu
 		}
+		if naluLength > uint64(length-pos) {
+			break // NALU length field points beyond the sample
+		}
+		pos += int(naluLength)
 	}
 	return naluList
 }
@@ -105,16 +111,19 @@ func IsIDRSample(sample []byte) bool {
 
 // ContainsNaluType - is specific NaluType present in sample
 func ContainsNaluType(sample []byte, specificNalType NaluType) bool {
-	var pos uint32 = 0
+	pos := 0
 	length := len(sample)
-	for pos < uint32(length-4) {
-		naluLength := binary.BigEndian.Uint32(sample[pos : pos+4])
+	for pos < length-4 {
+		naluLength := uint64(binary.BigEndian.Uint32(sample[pos : pos+4]))
 		pos += 4
 		naluType := GetNaluType(sample[pos])
 		if naluType == specificNalType {
 			return true
 		}
-		pos += naluLength
+		if naluLength > uint64(length-pos) {
+			break // NALU length field points beyond the sample
+		}
+		pos += int(naluLength)
 	}
 	return false
 }
@@ -140,22 +149,26 @@ func HasParameterSets(b []byte) bool {
 
 // GetParameterSets - get (multiple) SPS and PPS from a sample
 func GetParameterSets(sample []byte) (sps [][]byte, pps [][]byte) {
-	sampleLength := uint32(len(sample))
-	var pos uint32 = 0
+	sampleLength := len(sample)
+	pos := 0
 naluLoop:
-	for pos < sampleLength {
-		naluLength := binary.BigEndian.Uint32(sample[pos : pos+4])
+	for pos < sampleLength-4 {
+		naluLength := uint64(binary.BigEndian.Uint32(sample[pos : pos+4]))
 		pos += 4
+		if naluLength > uint64(sampleLength-pos) {
+			break // NALU length field points beyond the sample
+		}
+		end := pos + int(naluLength)
 		naluHdr := sample[pos]
 		switch naluType := GetNaluType(naluHdr); {
 		case naluType == NALU_SPS:
-			sps = append(sps, sample[pos:pos+naluLength])
+			sps = append(sps, sample[pos:end])
 		case naluType == NALU_PPS:
-			pps = append(pps, sample[pos:pos+naluLength])
+			pps = append(pps, sample[pos:end])
 		case IsVideoNaluType(naluType):
 			break naluLoop //SPS and PPS must come before video
 		}
-		pos += naluLength
+		pos = end
 	}
 	return sps, pps
 }
